@@ -42,6 +42,11 @@ def replay_engine_a(prop, rp, path):
     fn, *returns = mod.dispatch_map[sig]
     cfn, *creturns = mod.dispatch_map[cart_of(sig)]
     vs = groups(sig)
+    spec = None
+    if "spec function" in str(cx.get("expected_from", "")):
+        from . import specs
+        spec = specs.SPECS.get((job["pk"], job["mod"]) + tuple(c for c in sig if isinstance(c, str)))
+        snames = OPS.scalar_params(job["mod"], cfn, sum(2 if i == 0 else 1 for v in vs for i, _ in enumerate(v)))
 
     def conv(x, f):
         return x if isinstance(x, bool) else f(x)
@@ -53,14 +58,17 @@ def replay_engine_a(prop, rp, path):
         nviews = [num_view(v, [mp.mpf(c) for c in vv]) for v, vv in zip(vs, vec)]
         with numpy.errstate(all="ignore"):
             got = fn(lib, *sargs, *flat)
-            exp = cfn(lib, *sargs, *[f(c) for v in nviews for c in v])
+            if spec is not None:
+                exp = spec(NL.MPLIB, dict(zip(snames, [conv(x, mp.mpf) for x in cx["scalars"]])), nviews)
+            else:
+                exp = cfn(lib, *sargs, *[f(c) for v in nviews for c in v])
         if returns in ([float], [bool]):
             g, e = got, exp
         else:
             oc = [r for r in returns if r is not None]
             rc = [r for r in creturns if r is not None]
             g = [str(x) for x in num_view(oc, [mp.mpf(float(c)) if not isinstance(c, mp.mpf) else c for c in got])]
-            e = [str(x) for x in num_view(rc, [mp.mpf(float(c)) if not isinstance(c, mp.mpf) else c for c in exp])]
+            e = [str(x) for x in (exp if spec is not None else num_view(rc, [mp.mpf(float(c)) if not isinstance(c, mp.mpf) else c for c in exp]))]
         tol = 1e-30 if label.startswith("mp") else 1e-6
 
         def differ(a, b):
